@@ -10,7 +10,7 @@ def fiTun : Fi.Tun :=
     epsNum := DSGen.fi_EPSILON_FACTOR_num, epsDen := DSGen.fi_EPSILON_FACTOR_den,
     lgMin := DSGen.fi_LG_MIN_MAP_SIZE,
     goldNum := DSGen.fi_GOLDEN_RATIO_RECIPROCAL_num, goldDen := DSGen.fi_GOLDEN_RATIO_RECIPROCAL_den,
-    driftLimit := DSGen.fi_DRIFT_LIMIT }
+    driftLimit := DSGen.fi_DRIFT_LIMIT, emptyByTotal := DSGen.fi_EMPTY_BY_TOTAL }
 
 def main (args : List String) : IO UInt32 := do
   match args with
